@@ -55,6 +55,19 @@ def run(run):
              "accesses": ["%s:%d %s" % (f["file"], f["line"], "write" if f["rw"] == "w" else "read") for f in fs][:12]},
             concrete=False, signature=sg))
 
+    # Copy-style methods that keep a map / slice / pointer of the original (see Csvq.C13.copies_share_nothing)
+    allowed_shared = {"copyshare:view.go:View.Copy:FileInfo"}
+    copy_shared = []
+    pf = LEAN / "Csvq" / "Gen" / "ParFacts.lean"
+    if ok1 and pf.exists():
+        _, _, tail = pf.read_text().partition("def copyFacts")
+        for m in re.finditer(r'⟨"([^"]*)", (\d+), "([^"]*)", "([^"]*)", (true|false), "((?:[^"\\]|\\.)*)"⟩', tail):
+            sg = "copyshare:%s:%s:%s" % (m.group(1), m.group(3), m.group(4))
+            if m.group(5) == "false" and sg not in allowed_shared:
+                copy_shared.append(sg)
+                run.problems.append(Problem("direct", sg, {"what": "a Copy-style method leaves a reference-typed field of the copy pointing at the original's data: objects meant to be private to one goroutine share it",
+                                                           "where": "%s:%s" % (m.group(1), m.group(2)), "how": m.group(6)}, concrete=False, signature=sg))
+
     if ok1 and ok2:
         run.obligations_for(["Csvq.Props.C13"])
 
@@ -91,14 +104,14 @@ def run(run):
     extra = {
         "access_facts": len(facts), "access_fact_classes": dist, "fork_join_regions": len({f["region"] for f in facts}),
         "unguarded_sites_static": sorted(sites), "unguarded_sites_confirmed_by_race_detector": sorted(confirmed),
-        "race_reports_outside_unguarded_sites": unexplained,
+        "race_reports_outside_unguarded_sites": unexplained, "copy_methods_sharing_state": copy_shared,
     }
     if facts:
         run.cov["samples"] = ["fact %s:%d %s %s%s %s -> %s (%s)" % (f["file"], f["line"], f["fn"], f["var"], "[]" if f["elem"] else "", f["rw"], f["cls"], f["how"])
                               for f in facts[:: max(1, len(facts) // 5)]][:5] + run.cov["samples"]
     return run.finish(
         level="proof",
-        rule="static: every access to a shared variable in every fork-join region of lib/query (closures passed to GoroutineTaskManager.Run / EvaluateSequentially, bodies started with go, the parent between fork and join, methods of the manager types), classified and checked by kernel evaluation; dynamic: a load matrix first (CSV, TSV, fixed-length, LTSV, JSONL, JSON; from a file and from stdin; with and without header; row counts 159/161/299/301/650 in the quick tier and 1..2500 around 80, 160, 300, 320, 600, 640 in the thorough tier, on both sides of the 300-record loader buffer and of the 80-rows-per-worker threshold; @@CPU 1, 2, 4, 8), then statements of 47 kinds (6 file formats, filters, 7 join forms, GROUP BY/HAVING, ORDER BY, DISTINCT, set operators, 4 analytic families, recursive CTE, DML, cursor, 6 failing statements) on tables of 200-3000 rows with @@CPU drawn from 2..8 under the race detector; non-trivial = distinct (statement kind, @@CPU, row band, error code)",
+        rule="static: every access to a shared variable in every fork-join region of lib/query (closures passed to GoroutineTaskManager.Run / EvaluateSequentially, bodies started with go, the parent between fork and join, methods of the manager types), classified and checked by kernel evaluation; dynamic: a load matrix first (CSV, TSV, fixed-length, LTSV, JSONL, JSON; from a file and from stdin; with and without header; row counts 159/161/299/301/650 in the quick tier and 1..2500 around 80, 160, 300, 320, 600, 640 in the thorough tier, on both sides of the 300-record loader buffer and of the 80-rows-per-worker threshold; @@CPU 1, 2, 4, 8), then correlated sub-queries (EXISTS, IN, scalar, NOT EXISTS under GROUP BY) with 10-12 distinct outer-column references over an outer table below and above the per-worker split size, then statements of 47 kinds (6 file formats, filters, 7 join forms, GROUP BY/HAVING, ORDER BY, DISTINCT, set operators, 4 analytic families, recursive CTE, DML, cursor, 6 failing statements) on tables of 200-3000 rows with @@CPU drawn from 2..8 under the race detector; non-trivial = distinct (statement kind, @@CPU, row band, error code)",
         trusted_base=BASE_TRUST + [
             "extract/parfacts: syntactic access classification (go/ast + go/types), refuses constructs without a rule; plain function callees of worker closures are not analysed; method summaries are syntactic",
             "the Go memory model, rendered as the lockset race definition of Csvq/Model/ForkJoin.lean",
